@@ -274,6 +274,9 @@ class Exec:
         for (ty, pname), a in zip(self.f.params, args):
             if a[0] == "ptr":
                 self.env[pname] = Ptr(a[1], a[2])
+            elif a[0] == "sym":          # a symbolic scalar argument: one more input word
+                self.env[pname] = self.b.inp(ty[1])
+                self.seg_in_desc = self.seg_in_desc + [("arg", pname, ty[1])]
             else:
                 self.env[pname] = self.b.const(ty[1], a[1])
         self.headers = self.loop_headers()
